@@ -17,6 +17,9 @@ QDom(a) == Pr(Qn("exists", "k", Fld(VarR("@" \o a), "xs"), Bn(">", K, NumA("0"))
 QUnused == Pr(Qn("forall", "k", Own("xs"), Bn(">", Own("x"), NumA("0"))))
 QOwnDom == Pr(Qn("forall", "k", Fld(K, "xs"), Bn(">", K, NumA("0"))))
 QNested == Pr(Qn("forall", "k", Own("xs"), Qn("exists", "k", Own("ys"), Bn(">", K, NumA("0")))))
+QNestedAfterUse == Pr(Qn("forall", "k", Own("xs"), Bn("and", Bn(">", K, NumA("0")), Qn("exists", "k", Own("ys"), Bn("<", K, NumA("1"))))))
+QNestedDeep == Pr(Qn("forall", "k", Own("xs"), Bn("implies", Bn(">", K, NumA("0")), Un("not", Qn("exists", "j", Own("ys"), Qn("forall", "k", Own("zs"), Bn("<", K, J)))))))
+QUnusedAfter == Pr(Bn("and", Bn(">", Own("x"), NumA("0")), Qn("exists", "k", Own("ys"), Bn("<", Own("x"), NumA("1")))))
 QNestedOK == Pr(Qn("forall", "k", Own("xs"), Qn("exists", "j", Own("ys"), Bn(">", K, J))))
 
 \* options for one event position: <<alias, predicate>>
@@ -26,7 +29,7 @@ OptsQ == {<<"", RefIdx("A")>>, <<"", RefIdx("B")>>, <<"B", RefIdx("A")>>,
           <<"", Pr(Bn(">", Fld(Idx(Idx(Own("ys"), NumA("0")), Fld(VarR("@A"), "i")), "z"), NumA("0")))>>,
           <<"", Pr(Bn("in", Own("x"), Rng("[", NumA("0"), Idx(Own("xs"), Fld(VarR("@A"), "i")), "]")))>>,
           <<"", Pr(Qn("forall", "k", Own("xs"), Bn(">", Idx(Own("ys"), Fld(VarR("@A"), "i")), K)))>>,
-          <<"", QBody("A")>>, <<"", QDom("A")>>, <<"B", QBody("A")>>, <<"", QUnused>>, <<"", QOwnDom>>, <<"", QNested>>,
+          <<"", QBody("A")>>, <<"", QDom("A")>>, <<"B", QBody("A")>>, <<"", QUnused>>, <<"", QOwnDom>>, <<"", QNested>>, <<"", QNestedAfterUse>>, <<"", QNestedDeep>>, <<"", QUnusedAfter>>,
           <<"", QNestedOK>>, <<"A", RefP("A")>>, <<"A", QBody("A")>>}
 
 Scope(t, p, q) == IF t = "globally" THEN [k |-> "scope", t |-> t]
@@ -223,8 +226,18 @@ WShadow ==
              Bn("and", Bn("=", Fld(VarR("@j"), "n"), Own("s")), Qn("exists", "j", Own("mf"), Bn(">", Fld(VarR("@j"), "n"), NumA("0")))),
              Bn("and", Qn("forall", "j", Own("ms"), Bn(">", Fld(VarR("@j"), "n"), NumA("0"))),
                        Qn("exists", "j", Own("xs"), Bn(">", VarR("@j"), Own("n"))))}}
+WAllPatterns ==
+  {Prop(Scope("after", Ev("t", "A", NoPred), NoPred), Pat2(t, Ev("u", "B", Pr(c1)), Ev("u", "", Pr(c2)))) :
+      t \in {"causes", "forbids", "requires"},
+      c1 \in {Bn(">", Own("n"), NumA("0")), Bn(">", Own("n"), Fld(VarR("@A"), "n"))},
+      c2 \in {Bn(">", Own("k"), Fld(VarR("@A"), "n")), Bn("=", Own("s"), Fld(VarR("@A"), "s")), Bn(">", Own("k"), NumA("0"))}}
+  \cup {Prop(Scope("after_until", Ev("t", "A", NoPred), Ev("u", "", Pr(Bn(">", Own("n"), Fld(VarR("@A"), "n"))))), Pat2(t, Ev("u", "", NoPred), Ev("u", "", Pr(c2)))) :
+      t \in {"causes", "forbids"}, c2 \in {Bn(">", Own("k"), Fld(VarR("@A"), "n"))}}
+  \cup {Prop(Scope("after", Ev("t", "A", NoPred), NoPred), Pat2("causes", Ev("u", "B", NoPred), Ev("u", "", Pr(Bn("<", Fld(VarR("@B"), "n"), Fld(VarR("@A"), "n"))))))}
+  \cup {Prop(Scope("after", Ev("t", "A", NoPred), NoPred), Pat2("requires", Ev("u", "B", NoPred), Ev("u", "", Pr(Bn("<", Fld(VarR("@B"), "n"), Fld(VarR("@A"), "n"))))))}
+  \cup {Prop(Scope("after", Ev("t", "A", NoPred), NoPred), Pat1(t, Ev("u", "", Pr(Bn(">", Own("k"), Fld(VarR("@A"), "n")))))) : t \in {"some", "no"}}
 WellTypedShapes ==
-  {Prop(Scope("after", Ev("t", "A", NoPred), NoPred), Pat1("no", Ev("u", "", Pr(c)))) : c \in WPreds} \cup WTwoEvents \cup WShadow
+  {Prop(Scope("after", Ev("t", "A", NoPred), NoPred), Pat1("no", Ev("u", "", Pr(c)))) : c \in WPreds} \cup WTwoEvents \cup WShadow \cup WAllPatterns
 
 ShapeMembers ==
   CASE ShapeFamily = "simple" -> SimpleShapes
